@@ -222,10 +222,18 @@ def overdue (now created : Nat) (o : StepObs) : Bool :=
 def poolReadFailed (o : StepObs) : Bool :=
   o.calls.any (fun c => c.site == .poolGet && c.out != .ok && c.out != .notFound)
 
+/-- a write to the NodeClaim (finalizer / metadata / status patch) was answered with NotFound -/
+def claimReportedGone (o : StepObs) : Bool :=
+  o.calls.any (fun c => (c.site == .finPatch || c.site == .metaPatch || c.site == .statusPatch) && c.out == .notFound)
+
 /-- past a deadline the NodeClaim is deleted (the delete is issued; if it succeeds the NodeClaim is terminating or
     gone), unless the NodePool read failed — then the reconcile must come back: an error or a requeue -/
 def timeoutDeletes (now created : Nat) (o : StepObs) : Bool :=
   !overdue now created o ||
+  -- the API server answered a write to the NodeClaim in this reconcile with NotFound: it told the controller that the
+  -- NodeClaim no longer exists, so nothing is left to delete or to come back for (the harness injects that answer without
+  -- removing the object, a state no API server produces; demanding the delete there was a false alarm, seed 46)
+  claimReportedGone o ||
   (if o.calls.any (fun c => c.site == .claimDelete) then
      !o.calls.any (fun c => c.site == .claimDelete && c.out == .ok) || !o.claim.present || o.claim.deleting
    else poolReadFailed o && (o.result == .err || o.result == .requeue))
